@@ -116,11 +116,12 @@ func exploreScenario(idx int, sc scenario, deadline time.Time) scenResult {
 		outcomes = map[string]bool{}
 		st := rtExplore(bound, stop, func() func() { cur = sc.Mk(); return cur.Body }, func(x *execT, schedule []int) bool {
 			atomic.AddInt64(&progress, 1)
-			if sc.Fine && x != nil && x.Diverged != "" {
-				// In the fine-grained family the scheduling points lie INSIDE the library; where the library
-				// iterates over a Go map the number of points before an early exit depends on the (randomised)
-				// iteration order, so a recorded prefix may not be replayable. That is nondeterminism of the
-				// language the explorer cannot own: the execution is counted and skipped, never judged.
+			if x != nil && x.Diverged != "" {
+				// Where the library iterates over a Go map, the number of scheduling points before an early exit (fine-
+				// grained family) or the order in which lock operations and spawns occur (a library with internal
+				// locking) depends on the randomised iteration order, so a recorded prefix may not be replayable.
+				// That is nondeterminism of the language the explorer cannot own: the execution is counted and
+				// skipped, never judged.
 				res.Diverged++
 				return true
 			}
@@ -152,12 +153,10 @@ func exploreScenario(idx int, sc scenario, deadline time.Time) scenResult {
 			}
 			switch {
 			case same == 5:
-			case !sc.Fine:
-				res.HarnessErr = other
 			case same > 0:
 				res.Msg += fmt.Sprintf(" (intermittent: reproduced in %d of 5 replays of the schedule; library-internal scheduling points depend on map iteration order)", same)
 			default:
-				// fine-grained family only: a candidate that never reproduces is not reported and not fatal
+				// a candidate that never reproduces is not reported and not fatal (it is named in the evidence)
 				res.Cut = "a violation candidate (" + viol.Sig + ") did not reproduce in 5 replays of its schedule and was dropped: " + other
 				res.Msg, res.Sig, res.Schedule = "", "", nil
 			}
@@ -425,7 +424,7 @@ func main() {
 		}
 	}
 	if diverged > 0 {
-		c.Cut(fmt.Sprintf("%d executions of the fine-grained family could not be replayed: the number of library-internal scheduling points depended on Go's randomised map iteration order; they were skipped, not judged", diverged))
+		c.Cut(fmt.Sprintf("%d executions could not be replayed: the sequence of scheduling points depended on Go's randomised map iteration order; they were skipped, not judged", diverged))
 	}
 	c.Set("async_scenarios", asyncTable)
 	c.Set("families", fam)
